@@ -82,6 +82,14 @@ pub open spec fn conn_same_but_stream(a: ConnState, b: ConnState) -> bool {
     && a.timeout_receiver == b.timeout_receiver && a.pong_notifier == b.pong_notifier && a.quit_receiver == b.quit_receiver
     && a.dns_lookup_receiver == b.dns_lookup_receiver && a.conns_count == b.conns_count
 }
+// everything of the connection but the pending pong notifier (and the reply stream) is as before
+pub open spec fn conn_same_but_pong(a: ConnState, b: ConnState) -> bool {
+    a.user_state == b.user_state && a.receiver == b.receiver && a.sender == b.sender && a.caps == b.caps
+    && a.caps_negotation == b.caps_negotation && a.quit == b.quit && a.quit_sender == b.quit_sender
+    && a.ping_sender == b.ping_sender && a.ping_receiver == b.ping_receiver && a.timeout_sender == b.timeout_sender
+    && a.timeout_receiver == b.timeout_receiver && a.quit_receiver == b.quit_receiver
+    && a.dns_lookup_receiver == b.dns_lookup_receiver && a.conns_count == b.conns_count
+}
 // effect of one remove_user_from_channel(c, nick) step, as its contract states it
 pub open spec fn rufc_step(a: VolatileState, b: VolatileState, c: String, nick: String) -> bool {
     &&& (forall|d: String| d != c ==> (b.channels@.contains_key(d) <==> a.channels@.contains_key(d)))
